@@ -53,7 +53,7 @@ func (c *FnCtx) planValue(p *valuePlan, v Term, t types.Type, depth int) {
 		key, hs := c.g.elemHeapKey(tt.Elem())
 		h := c.heap(c.entry, key, hs)
 		for i := 0; i < maxReplayElems; i++ {
-			c.planValue(p, sel(sel(h, sBase(v)), add(sOff(v), intLit(int64(i)))), tt.Elem(), depth-1)
+			c.planValue(p, sel(sel(h, sBase(v)), eidx(sOff(v), intLit(int64(i)))), tt.Elem(), depth-1)
 		}
 	case *types.Pointer:
 		p.ask(v)
@@ -165,7 +165,7 @@ func (b *goBuilder) goValue(v Term, t types.Type, depth int) string {
 			if depth <= 0 {
 				break
 			}
-			elems = append(elems, b.goValue(sel(sel(h, sBase(v)), add(sOff(v), intLit(int64(i)))), tt.Elem(), depth-1))
+			elems = append(elems, b.goValue(sel(sel(h, sBase(v)), eidx(sOff(v), intLit(int64(i)))), tt.Elem(), depth-1))
 		}
 		lit := fmt.Sprintf("%s{%s}", b.typeStr(t0), strings.Join(elems, ", "))
 		if n > len(elems) {
@@ -219,32 +219,51 @@ func fetchValues(v *Verdict, plan *valuePlan, u *Universe) (map[string]string, e
 	b.WriteString(u.prelude(v.Obl.Body + strings.Join(plan.terms, " ")))
 	b.WriteString(v.Obl.Body)
 	_ = lines
-	b.WriteString("(check-sat)\n(get-value (")
-	for _, t := range plan.terms {
-		b.WriteString(t)
-		b.WriteString("\n")
-	}
-	b.WriteString("))\n")
-	f := v.File + ".values.smt2"
-	if err := os.WriteFile(f, []byte(b.String()), 0o644); err != nil {
-		return nil, err
-	}
-	ctx, cancel := context.WithTimeout(context.Background(), 60*time.Second)
+	head := b.String()
+	ctx, cancel := context.WithTimeout(context.Background(), 120*time.Second)
 	defer cancel()
-	order := []string{v.Solver, "z3-new", "z3", "cvc5"}
-	for _, name := range order {
-		for _, sd := range solvers {
-			if sd.name != name {
+	// Any model of the failed obligation is a counterexample; prefer a small one (short slices), which
+	// the replay can rebuild completely. Smallness constraints are dropped step by step.
+	for _, maxLen := range []int{3, 8, maxReplayElems, -1} {
+		var q strings.Builder
+		q.WriteString(head)
+		if maxLen >= 0 {
+			for _, t := range plan.terms {
+				if strings.HasPrefix(t, "(s_len ") {
+					fmt.Fprintf(&q, "(assert (<= %s %d))\n", t, maxLen)
+				}
+			}
+		}
+		q.WriteString("(check-sat)\n(get-value (")
+		for _, t := range plan.terms {
+			q.WriteString(t)
+			q.WriteString("\n")
+		}
+		q.WriteString("))\n")
+		f := v.File + ".values.smt2"
+		if err := os.WriteFile(f, []byte(q.String()), 0o644); err != nil {
+			return nil, err
+		}
+		order := []string{v.Solver, "z3-new", "z3", "cvc5"}
+		tried := map[string]bool{}
+		for _, name := range order {
+			if tried[name] {
 				continue
 			}
-			res, out := runSolver(ctx, sd, f, 30)
-			if res != "sat" {
-				continue
-			}
-			k := strings.Index(out, "\n")
-			vals := parseValuePairs(out[k+1:])
-			if len(vals) > 0 {
-				return vals, nil
+			tried[name] = true
+			for _, sd := range solvers {
+				if sd.name != name {
+					continue
+				}
+				res, out := runSolver(ctx, sd, f, 15)
+				if res != "sat" {
+					continue
+				}
+				k := strings.Index(out, "\n")
+				vals := parseValuePairs(out[k+1:])
+				if len(vals) > 0 {
+					return vals, nil
+				}
 			}
 		}
 	}
@@ -990,7 +1009,15 @@ func (c *FnCtx) execGoTest(o *options, goFile string, pkg *types.Package, notes 
 	text := out.String()
 	log := fmt.Sprintf("test file: %s\ncommand: (cd %s && go test -overlay %s -vet=off -count=1 -timeout 120s -run '^TestVerifReplay$' ./%s)\n%s", goFile, o.repo, ovFile, rel, tail(text, 30))
 	if len(notes) > 0 {
-		log += "\nreplay notes: " + strings.Join(notes, "; ")
+		seen := map[string]bool{}
+		var uniq []string
+		for _, n := range notes {
+			if !seen[n] {
+				seen[n] = true
+				uniq = append(uniq, n)
+			}
+		}
+		log += "\nreplay notes: " + strings.Join(uniq, "; ")
 	}
 	if err != nil && (strings.Contains(text, "VERIF-REPLAY VIOLATED") || strings.Contains(text, "VERIF-REPLAY PANIC")) {
 		return true, log
